@@ -1,7 +1,7 @@
 (* C08 -- Redefine yields a callable function over exactly the missing, permitted inputs. *)
 From ArgMapper Require Import Base Graph GraphAlg Types Args Resolver ResolverSpec Monitors Monitors2 ResolverStatements ResolverStatements2.
 From ArgMapper Require Import ResolverStatements3 ResolverStatements4.
-From ArgMapper.proofs Require Import C08Redefine C08Succeeds C08Callable C08NonVacuous.
+From ArgMapper.proofs Require Import C08Redefine C08Succeeds C08Callable C08NonVacuous FilterLaws.
 
 (* On the domain of the property (no subtypes; the proofs do not even need
    the single-input and one-type-per-name restrictions) and for every tape:
@@ -53,3 +53,20 @@ Theorem C08_nonvacuous :
   nv_redefine_ok = true /\ nv_call_ok = true.
 Proof. exact C08_premises_satisfiable. Qed.
 Print Assumptions C08_nonvacuous.
+
+(* "Permitted" is decided by the filter combinators of filter.go; for every
+   universe, every type and filter lists of any length and nesting:
+   FilterOr(fs...) permits a type exactly when some member does (so
+   FilterOr() permits nothing), FilterAnd(fs...) exactly when every member
+   does (so FilterAnd() -- and the nil filter of the model -- permits
+   everything).  Further laws (flattening, absorption, insensitivity to
+   order and repetition): proofs/FilterLaws.v. *)
+Theorem C08_filter_or : forall u fs t,
+  flt_ok u (FltOr fs) t = true <-> exists f, List.In f fs /\ flt_ok u f t = true.
+Proof. exact flt_or_spec. Qed.
+Print Assumptions C08_filter_or.
+
+Theorem C08_filter_and : forall u fs t,
+  flt_ok u (FltAnd fs) t = true <-> forall f, List.In f fs -> flt_ok u f t = true.
+Proof. exact flt_and_spec. Qed.
+Print Assumptions C08_filter_and.
